@@ -73,26 +73,34 @@ theorem encode_ok_check {a : Acc} {tbl : Option Tbl} {v : Int} {bits : List Nat}
     {n fuel : Nat} {s : List Char} {c : Option (List Char)}
     (h : encode a tbl v bits fast n fuel = .ok (s, c)) :
     (n = 0 ∧ c = none) ∨ (0 < n ∧ ∃ c', c = some c' ∧ setVt s n = .ok c') := by
-  unfold encode at h
-  generalize (if fast = true then encodeFastLoop a tbl fuel v bits
-    else encodeNormalLoop a tbl fuel v (bitToNumberStr bits)) = x at h
-  cases x with
-  | error e => cases h
-  | ok s0 =>
-    simp only [bind, Except.bind, pure, Except.pure] at h
-    by_cases hv : n > 0
-    · rw [if_pos hv] at h
-      cases hc : setVt s0 n with
-      | error e => rw [hc] at h; cases h
-      | ok c0 =>
-        rw [hc] at h
+  have key : ∀ x : R (List Char),
+      (do let s ← x
+          if n > 0 then
+            let c ← setVt s n
+            pure (s, some c)
+          else pure (s, none) : R (List Char × Option (List Char))) = .ok (s, c) →
+      (n = 0 ∧ c = none) ∨ (0 < n ∧ ∃ c', c = some c' ∧ setVt s n = .ok c') := by
+    intro x h
+    cases x with
+    | error e => cases h
+    | ok s0 =>
+      simp only [bind, Except.bind, pure, Except.pure] at h
+      by_cases hv : n > 0
+      · rw [if_pos hv] at h
+        cases hc : setVt s0 n with
+        | error e => rw [hc] at h; cases h
+        | ok c0 =>
+          rw [hc] at h
+          simp only [Except.ok.injEq, Prod.mk.injEq] at h
+          obtain ⟨rfl, rfl⟩ := h
+          exact .inr ⟨hv, c0, rfl, hc⟩
+      · rw [if_neg hv] at h
         simp only [Except.ok.injEq, Prod.mk.injEq] at h
         obtain ⟨rfl, rfl⟩ := h
-        exact .inr ⟨hv, c0, rfl, hc⟩
-    · rw [if_neg hv] at h
-      simp only [Except.ok.injEq, Prod.mk.injEq] at h
-      obtain ⟨rfl, rfl⟩ := h
-      exact .inl ⟨by omega, rfl⟩
+        exact .inl ⟨by omega, rfl⟩
+  cases fast with
+  | false => exact key (encodeNormalLoop a tbl fuel v (bitToNumberStr bits)) h
+  | true => exact key (encodeFastLoop a tbl fuel v bits) h
 
 /-- every emitted nucleotide costs one unit of fuel. -/
 theorem encode_length {a : Acc} {tbl : Option Tbl} {v : Int} {bits : List Nat} {fast : Bool}
@@ -143,6 +151,24 @@ theorem check_length {s : List Char} {c : Option (List Char)} {n : Nat}
     simp at hl
     omega
 
+/-- the round trip behind C01: an `.ok` result of the model `encode` is decoded by the generated
+`decode` to the message. -/
+theorem decode_of_encode {a : Acc} {tbl : Option Tbl} {v : Nat} {m : List Nat} {fast : Bool} {n fuel : Nat}
+    {s : List Char} {c : Option (List Char)}
+    (ha : a.WF) (hv : v < a.size) (ht : TblOK tbl a) (hm : IsBits m)
+    (he : encode a tbl (v : Int) m fast n fuel = .ok (s, c)) (fuel' : Nat) (vb' : Bool)
+    (hf' : 4 * s.length + 2 * n + 10 ≤ fuel') :
+    Gen.decode fuel' (cstr s) (.int (m.length : Int)) (accPV a) (.int (v : Int)) (.bool fast) (chkPV c)
+      (tblPV tbl) (.bool vb') = .ok (bitsPV m) := by
+  obtain ⟨hlen, hne⟩ := check_length (encode_ok_check he)
+  have hdec : Dsw.decode a tbl (v : Int) s m.length fast c = .ok m := by
+    cases fast with
+    | false => exact C01_normal a tbl v m n fuel s c hm he
+    | true => exact C01_fast a tbl v m n fuel s c hm he
+  rw [tie_decode a tbl v s m.length fast c fuel' vb' ha hv ht (fun c' hc => (hne c' hc).2)
+    (by rw [hlen]; exact hf'), hdec]
+  rfl
+
 theorem toBool_map {α β} (x : R α) (f : α → β) : (x.map f).toBool = x.toBool := by
   cases x <;> rfl
 
@@ -171,11 +197,7 @@ theorem gen_C01_roundtrip (a : Acc) (tbl : Option Tbl) (v : Nat) (m : List Nat) 
   obtain ⟨⟨s, c⟩, he, hr⟩ := map_ok_inv h
   have hck := encode_ok_check he
   obtain ⟨hlen, hne⟩ := check_length hck
-  have hdec : Dsw.decode a tbl (v : Int) s m.length fast c = .ok m := by
-    cases fast with
-    | false => exact C01_normal a tbl v m n fuel s c hm he
-    | true => exact C01_fast a tbl v m n fuel s c hm he
-  refine ⟨s, c, hr, encode_length hm he, ?_, ?_, ?_⟩
+  refine ⟨s, c, hr, encode_length hm he, ?_, ?_, decode_of_encode ha hv ht hm he⟩
   · intro h0
     rcases hck with ⟨_, hc⟩ | ⟨hn, _⟩
     · exact hc
@@ -184,10 +206,6 @@ theorem gen_C01_roundtrip (a : Acc) (tbl : Option Tbl) (v : Nat) (m : List Nat) 
     rcases hck with ⟨h0, _⟩ | ⟨_, c', hc, _⟩
     · omega
     · exact ⟨c', hc, (hne c' hc).1⟩
-  · intro fuel' vb' hf'
-    rw [tie_decode a tbl v s m.length fast c fuel' vb' ha hv ht (fun c' hc => (hne c' hc).2)
-      (by rw [hlen]; exact hf'), hdec]
-    rfl
 
 /-- arbitrary-precision mode (`is_faster=False`), any mixture of out-degrees, any table, with or
 without check — `C01_normal` about the generated code. -/
@@ -283,35 +301,19 @@ theorem gen_C01_total_roundtrip (a : Acc) (tbl : Option Tbl) (v : Nat) (m : List
         (.bool false) (.bool vb) = .ok (encResultPV (s, c)) ∧
       Gen.decode fuel' (cstr s) (.int (m.length : Int)) (accPV a) (.int (v : Int)) (.bool fast) (chkPV c)
         (tblPV tbl) (.bool vb') = .ok (bitsPV m) := by
-  have hex : ∃ (s : List Char) (c : Option (List Char)),
-      Gen.encode fuel (bitsPV m) (accPV a) (.int (v : Int)) (.bool fast) (.int (n : Int)) (tblPV tbl)
-        (.bool false) (.bool vb) = .ok (encResultPV (s, c)) := by
+  have hex : ∃ s c, encode a tbl (v : Int) m fast n fuel = .ok (s, c) := by
     cases fast with
-    | false => exact gen_C01_total_normal a tbl v m n fuel vb ha hv ht hm hg hf hfe
-    | true => exact gen_C01_total_fast a tbl v m n fuel vb ha hv ht hm hg (h3 rfl) hf hfe
-  obtain ⟨s0, c0, he⟩ := hex
-  rw [tie_encode a tbl v m fast n fuel vb ha hv ht (isBits_le_one hm) hf] at he ⊢
-  obtain ⟨⟨s, c⟩, he', _⟩ := map_ok_inv he
-  have hg' : Gen.encode fuel (bitsPV m) (accPV a) (.int (v : Int)) (.bool fast) (.int (n : Int)) (tblPV tbl)
-      (.bool false) (.bool vb) = .ok (encResultPV (s, c)) := by
-    rw [tie_encode a tbl v m fast n fuel vb ha hv ht (isBits_le_one hm) hf, he']; rfl
-  obtain ⟨s1, c1, hr, hl, _, _, hd⟩ := gen_C01_roundtrip a tbl v m fast n fuel vb _ ha hv ht hm hf hg'
-  have hl' := encode_length hm he'
-  refine ⟨s, c, by rw [he']; rfl, ?_⟩
-  have hd' : ∀ (fuel' : Nat) (vb' : Bool), 4 * s.length + 2 * n + 10 ≤ fuel' →
-      Gen.decode fuel' (cstr s) (.int (m.length : Int)) (accPV a) (.int (v : Int)) (.bool fast) (chkPV c)
-        (tblPV tbl) (.bool vb') = .ok (bitsPV m) := by
-    have hck := encode_ok_check he'
-    obtain ⟨hlen, hne⟩ := check_length hck
-    have hdec : Dsw.decode a tbl (v : Int) s m.length fast c = .ok m := by
-      cases fast with
-      | false => exact C01_normal a tbl v m n fuel s c hm he'
-      | true => exact C01_fast a tbl v m n fuel s c hm he'
-    intro fuel' vb' hf'
-    rw [tie_decode a tbl v s m.length fast c fuel' vb' ha hv ht (fun c' hc => (hne c' hc).2)
-      (by rw [hlen]; exact hf'), hdec]
-    rfl
-  exact hd' fuel' vb' (by omega)
+    | false =>
+      obtain ⟨s, c, h⟩ := C01_total_normal a tbl v m n hm hg
+      have h' := encode_normal_mono hm h (fuel - encodeFuel a m)
+      rw [Nat.add_sub_cancel' hfe] at h'
+      exact ⟨s, c, h'⟩
+    | true => exact encode_total_fast a tbl v m n fuel hm hg (h3 rfl) hfe
+  obtain ⟨s, c, he⟩ := hex
+  have hl := encode_length hm he
+  refine ⟨s, c, ?_, decode_of_encode ha hv ht hm he fuel' vb' (by omega)⟩
+  rw [tie_encode a tbl v m fast n fuel vb ha hv ht (isBits_le_one hm) hf, he]
+  rfl
 
 /-- the empty and the all-zero message are encoded as the empty strand in normal mode and decoded
 back — `C01_zero` about the generated code. -/
@@ -334,5 +336,271 @@ theorem gen_C01_zero (a : Acc) (tbl : Option Tbl) (v : Nat) (n fuel : Nat) (vb :
       (by simp only [List.length_nil, Option.map_none, Option.getD_none]; omega)
     rw [h2] at this
     exact this
+
+/-! ## C05 — the strand is the documented mixed-radix walk -/
+
+/-- normal mode: whatever the generated `encode` returns is the walk of the published scheme
+(`IsEncoding`, stated with the documented digit `arcRank`) for the message value —
+`C05_encode_meets_spec` about the generated code. -/
+theorem gen_C05_encode_meets_spec (a : Acc) (tbl : Option Tbl) (v : Nat) (m : List Nat) (n fuel : Nat)
+    (vb : Bool) (r : PV) (ha : a.WF) (hv : v < a.size) (ht : TblOK tbl a) (hm : IsBits m)
+    (hd : AllDistinct a tbl) (hf : 2 * n + 3 ≤ fuel)
+    (h : Gen.encode fuel (bitsPV m) (accPV a) (.int (v : Int)) (.bool false) (.int (n : Int)) (tblPV tbl)
+      (.bool false) (.bool vb) = .ok r) :
+    ∃ (s : List Char) (c : Option (List Char)), r = encResultPV (s, c) ∧
+      IsEncoding a tbl (v : Int) (bitToNumberInt m) s := by
+  rw [tie_encode a tbl v m false n fuel vb ha hv ht (isBits_le_one hm) hf] at h
+  obtain ⟨⟨s, c⟩, he, hr⟩ := map_ok_inv h
+  exact ⟨s, c, hr, C05_encode_meets_spec a tbl v m n fuel s c hm hd he⟩
+
+/-- the scheme determines what the generated `encode` returns: ANY strand meeting the specification
+for the message value is the strand returned (`C05_spec_unique` applied to the generated code). -/
+theorem gen_C05_spec_unique (a : Acc) (tbl : Option Tbl) (v : Nat) (m : List Nat) (n fuel : Nat)
+    (vb : Bool) (r : PV) (s' : List Char) (ha : a.WF) (hv : v < a.size) (ht : TblOK tbl a) (hm : IsBits m)
+    (hd : AllDistinct a tbl) (hf : 2 * n + 3 ≤ fuel)
+    (h : Gen.encode fuel (bitsPV m) (accPV a) (.int (v : Int)) (.bool false) (.int (n : Int)) (tblPV tbl)
+      (.bool false) (.bool vb) = .ok r)
+    (h' : IsEncoding a tbl (v : Int) (bitToNumberInt m) s') :
+    ∃ c : Option (List Char), r = encResultPV (s', c) := by
+  obtain ⟨s, c, hr, hs⟩ := gen_C05_encode_meets_spec a tbl v m n fuel vb r ha hv ht hm hd hf h
+  have := C05_spec_unique a tbl v _ s s' hd hs h'
+  subst this
+  exact ⟨c, hr⟩
+
+/-- the generated `decode` (normal mode, no check) of any walk returns the walk's mixed-radix value
+big-endian at width `L` — `C05_decode_value` about the generated code. -/
+theorem gen_C05_decode_value (a : Acc) (tbl : Option Tbl) (v : Nat) (s : List Char) (L fuel : Nat)
+    (vb : Bool) (ha : a.WF) (hv : v < a.size) (ht : TblOK tbl a) (hd : AllDistinct a tbl)
+    (hw : isWalk a (v : Int) s = true) (hf : 4 * s.length + 10 ≤ fuel) :
+    Gen.decode fuel (cstr s) (.int (L : Int)) (accPV a) (.int (v : Int)) (.bool false) PV.none (tblPV tbl)
+      (.bool vb) = .ok (bitsPV (numberToBitInt (walkValue a tbl (v : Int) s) L)) :=
+  (tie_decode a tbl v s L false none fuel vb ha hv ht (fun _ h => by cases h)
+    (by simp only [Option.map_none, Option.getD_none]; omega)).trans
+    (by rw [C05_decode_value a tbl v s L hd hw]; rfl)
+
+/-- fast mode: the strand the generated `encode` returns is a walk, and the bits it carries are the
+message followed by at most one padding zero — `C05_fast_meets_spec` about the generated code. -/
+theorem gen_C05_fast_meets_spec (a : Acc) (tbl : Option Tbl) (v : Nat) (m : List Nat) (n fuel : Nat)
+    (vb : Bool) (r : PV) (ha : a.WF) (hv : v < a.size) (ht : TblOK tbl a) (hm : IsBits m)
+    (hd : AllDistinct a tbl) (hf : 2 * n + 3 ≤ fuel)
+    (h : Gen.encode fuel (bitsPV m) (accPV a) (.int (v : Int)) (.bool true) (.int (n : Int)) (tblPV tbl)
+      (.bool false) (.bool vb) = .ok r) :
+    ∃ (s : List Char) (c : Option (List Char)), r = encResultPV (s, c) ∧ isWalk a (v : Int) s = true ∧
+      (walkBits a tbl (v : Int) s = m ∨ walkBits a tbl (v : Int) s = m ++ [0]) := by
+  rw [tie_encode a tbl v m true n fuel vb ha hv ht (isBits_le_one hm) hf] at h
+  obtain ⟨⟨s, c⟩, he, hr⟩ := map_ok_inv h
+  exact ⟨s, c, hr, C05_fast_meets_spec a tbl v m n fuel s c hm hd he⟩
+
+/-- the generated `decode` in fast mode (no check) of a walk without out-degree-3 vertices whose bits
+fit returns the carried bits, zero-padded to `L` — `C05_fast_decode_value` about the generated code. -/
+theorem gen_C05_fast_decode_value (a : Acc) (tbl : Option Tbl) (v : Nat) (s : List Char) (L fuel : Nat)
+    (vb : Bool) (ha : a.WF) (hv : v < a.size) (ht : TblOK tbl a) (hd : AllDistinct a tbl)
+    (hw : isWalk a (v : Int) s = true)
+    (h3 : ∀ i, i < s.length → a.outDeg (walkEnd a (v : Int) (s.take i)) ≠ 3)
+    (hL : (walkBits a tbl (v : Int) s).length ≤ L) (hf : 4 * s.length + 10 ≤ fuel) :
+    Gen.decode fuel (cstr s) (.int (L : Int)) (accPV a) (.int (v : Int)) (.bool true) PV.none (tblPV tbl)
+      (.bool vb) =
+      .ok (bitsPV (walkBits a tbl (v : Int) s ++
+        List.replicate (L - (walkBits a tbl (v : Int) s).length) 0)) :=
+  (tie_decode a tbl v s L true none fuel vb ha hv ht (fun _ h => by cases h)
+    (by simp only [Option.map_none, Option.getD_none]; omega)).trans
+    (by rw [C05_fast_decode_value a tbl v s L hd hw h3 hL]; rfl)
+
+/-! ## C06 — decoding accepts exactly the strands that are walks of the graph -/
+
+/-- normal mode, any string (foreign characters included), any requested length, `vt_check=None` or
+a non-empty check: the generated `decode` returns a bit array of exactly the requested length iff the
+string is a walk and the check matches; otherwise `ValueError` and nothing else — `C06_normal` about
+the generated code. -/
+theorem gen_C06_normal (a : Acc) (tbl : Option Tbl) (v : Nat) (s : List Char) (L : Nat)
+    (chk : Option (List Char)) (fuel : Nat) (vb : Bool)
+    (ha : a.WF) (hv : v < a.size) (ht : TblOK tbl a) (hc : ∀ c, chk = some c → c ≠ [])
+    (hf : 4 * s.length + 2 * (chk.map List.length).getD 0 + 10 ≤ fuel) :
+    (isWalk a (v : Int) s = true ∧ CheckOk s chk →
+        ∃ bits, Gen.decode fuel (cstr s) (.int (L : Int)) (accPV a) (.int (v : Int)) (.bool false)
+          (chkPV chk) (tblPV tbl) (.bool vb) = .ok (bitsPV bits) ∧ bits.length = L) ∧
+    (¬ (isWalk a (v : Int) s = true ∧ CheckOk s chk) →
+        Gen.decode fuel (cstr s) (.int (L : Int)) (accPV a) (.int (v : Int)) (.bool false)
+          (chkPV chk) (tblPV tbl) (.bool vb) = .error .valueError) := by
+  rw [tie_decode a tbl v s L false chk fuel vb ha hv ht hc hf]
+  obtain ⟨h1, h2⟩ := C06_normal a tbl v s L chk
+  refine ⟨fun h => ?_, fun h => ?_⟩
+  · obtain ⟨bits, hb, hl⟩ := h1 h
+    exact ⟨bits, by rw [hb]; rfl, hl⟩
+  · rw [h2 h]; rfl
+
+/-- the same as an equivalence: the generated `decode` returns iff the string is a walk and the
+check matches. -/
+theorem gen_C06_normal_iff (a : Acc) (tbl : Option Tbl) (v : Nat) (s : List Char) (L : Nat)
+    (chk : Option (List Char)) (fuel : Nat) (vb : Bool)
+    (ha : a.WF) (hv : v < a.size) (ht : TblOK tbl a) (hc : ∀ c, chk = some c → c ≠ [])
+    (hf : 4 * s.length + 2 * (chk.map List.length).getD 0 + 10 ≤ fuel) :
+    (∃ x, Gen.decode fuel (cstr s) (.int (L : Int)) (accPV a) (.int (v : Int)) (.bool false)
+      (chkPV chk) (tblPV tbl) (.bool vb) = .ok x) ↔ (isWalk a (v : Int) s = true ∧ CheckOk s chk) := by
+  obtain ⟨h1, h2⟩ := gen_C06_normal a tbl v s L chk fuel vb ha hv ht hc hf
+  constructor
+  · intro ⟨x, hx⟩
+    apply Classical.byContradiction
+    intro hn
+    rw [h2 hn] at hx
+    cases hx
+  · intro h
+    obtain ⟨bits, hb, _⟩ := h1 h
+    exact ⟨_, hb⟩
+
+/-- fast mode (no out-degree-3 vertex reachable): the same dichotomy for every string whose walkable
+prefix carries no more bits than requested — `C06_fast` about the generated code. -/
+theorem gen_C06_fast (a : Acc) (tbl : Option Tbl) (v : Nat) (s : List Char) (L : Nat)
+    (chk : Option (List Char)) (fuel : Nat) (vb : Bool)
+    (ha : a.WF) (hv : v < a.size) (ht : TblOK tbl a) (hc : ∀ c, chk = some c → c ≠ [])
+    (h3 : a.NoDeg3From (v : Int))
+    (hL : (walkBits a tbl (v : Int) (walkablePrefix a (v : Int) s)).length ≤ L)
+    (hf : 4 * s.length + 2 * (chk.map List.length).getD 0 + 10 ≤ fuel) :
+    (isWalk a (v : Int) s = true ∧ CheckOk s chk →
+        ∃ bits, Gen.decode fuel (cstr s) (.int (L : Int)) (accPV a) (.int (v : Int)) (.bool true)
+          (chkPV chk) (tblPV tbl) (.bool vb) = .ok (bitsPV bits) ∧ bits.length = L) ∧
+    (¬ (isWalk a (v : Int) s = true ∧ CheckOk s chk) →
+        Gen.decode fuel (cstr s) (.int (L : Int)) (accPV a) (.int (v : Int)) (.bool true)
+          (chkPV chk) (tblPV tbl) (.bool vb) = .error .valueError) := by
+  rw [tie_decode a tbl v s L true chk fuel vb ha hv ht hc hf]
+  obtain ⟨h1, h2⟩ := C06_fast a tbl v s L chk h3 hL
+  refine ⟨fun h => ?_, fun h => ?_⟩
+  · obtain ⟨bits, hb, hl⟩ := h1 h
+    exact ⟨bits, by rw [hb]; rfl, hl⟩
+  · rw [h2 h]; rfl
+
+theorem gen_C06_fast_iff (a : Acc) (tbl : Option Tbl) (v : Nat) (s : List Char) (L : Nat)
+    (chk : Option (List Char)) (fuel : Nat) (vb : Bool)
+    (ha : a.WF) (hv : v < a.size) (ht : TblOK tbl a) (hc : ∀ c, chk = some c → c ≠ [])
+    (h3 : a.NoDeg3From (v : Int))
+    (hL : (walkBits a tbl (v : Int) (walkablePrefix a (v : Int) s)).length ≤ L)
+    (hf : 4 * s.length + 2 * (chk.map List.length).getD 0 + 10 ≤ fuel) :
+    (∃ x, Gen.decode fuel (cstr s) (.int (L : Int)) (accPV a) (.int (v : Int)) (.bool true)
+      (chkPV chk) (tblPV tbl) (.bool vb) = .ok x) ↔ (isWalk a (v : Int) s = true ∧ CheckOk s chk) := by
+  obtain ⟨h1, h2⟩ := gen_C06_fast a tbl v s L chk fuel vb ha hv ht hc h3 hL hf
+  constructor
+  · intro ⟨x, hx⟩
+    apply Classical.byContradiction
+    intro hn
+    rw [h2 hn] at hx
+    cases hx
+  · intro h
+    obtain ⟨bits, hb, _⟩ := h1 h
+    exact ⟨_, hb⟩
+
+/-- which strands the generated `decode` accepts does not depend on the shuffle table —
+`C06_table_independent` about the generated code. -/
+theorem gen_C06_table_independent (a : Acc) (tbl tbl' : Option Tbl) (v : Nat) (s : List Char) (L : Nat)
+    (chk : Option (List Char)) (fuel : Nat) (vb : Bool)
+    (ha : a.WF) (hv : v < a.size) (ht : TblOK tbl a) (ht' : TblOK tbl' a)
+    (hc : ∀ c, chk = some c → c ≠ [])
+    (hf : 4 * s.length + 2 * (chk.map List.length).getD 0 + 10 ≤ fuel) :
+    (Gen.decode fuel (cstr s) (.int (L : Int)) (accPV a) (.int (v : Int)) (.bool false)
+      (chkPV chk) (tblPV tbl) (.bool vb)).toBool =
+    (Gen.decode fuel (cstr s) (.int (L : Int)) (accPV a) (.int (v : Int)) (.bool false)
+      (chkPV chk) (tblPV tbl') (.bool vb)).toBool := by
+  rw [tie_decode a tbl v s L false chk fuel vb ha hv ht hc hf,
+    tie_decode a tbl' v s L false chk fuel vb ha hv ht' hc hf, toBool_map, toBool_map]
+  exact C06_table_independent a tbl tbl' v s L chk
+
+/-! ## C07 — the path check is the documented VT function and sees every substitution -/
+
+/-- length, flag symbol and digit symbols of what the generated `set_vt` returns (defined for the
+empty strand too) — `C07_shape` about the generated code. -/
+theorem gen_C07_shape (s : List Char) (n fuel : Nat) (hn : 1 ≤ n) (hs : IsAcgt s) (hf : 2 * n + 2 ≤ fuel) :
+    ∃ c, Gen.set_vt fuel (cstr s) (.int (n : Int)) = .ok (cstr c) ∧ c.length = n ∧ IsAcgt c ∧
+      c.head? = some (nucChar ((valuesOf s).sum % 4)) ∧
+      kmerIdx c.tail = (ascentPositions (valuesOf s)).sum % 4 ^ (n - 1) := by
+  obtain ⟨c, h, hr⟩ := C07_shape s n hn hs
+  exact ⟨c, by rw [tie_set_vt s n fuel hn hf, h]; rfl, hr⟩
+
+/-- a strand with a foreign character has no check: the generated `set_vt` raises `ValueError` —
+`C07_foreign` about the generated code (for `n ≥ 1`, the tie's contract). -/
+theorem gen_C07_foreign (s : List Char) (n fuel : Nat) (hn : 1 ≤ n) (hs : ¬ IsAcgt s) (hf : 2 * n + 2 ≤ fuel) :
+    Gen.set_vt fuel (cstr s) (.int (n : Int)) = .error .valueError := by
+  rw [tie_set_vt s n fuel hn hf, C07_foreign s n hs]; rfl
+
+/-- any single substitution changes the first symbol of the check the generated `set_vt` returns. -/
+theorem gen_C07_subst (s : List Char) (n p : Nat) (x : Char) (fuel : Nat) (hn : 1 ≤ n) (hs : IsAcgt s)
+    (hp : p < s.length) (hx : (nucIdx x).isSome = true) (hne : s[p]? ≠ some x) (hf : 2 * n + 2 ≤ fuel) :
+    ∃ c c', Gen.set_vt fuel (cstr s) (.int (n : Int)) = .ok (cstr c) ∧
+      Gen.set_vt fuel (cstr (s.set p x)) (.int (n : Int)) = .ok (cstr c') ∧ c.head? ≠ c'.head? := by
+  obtain ⟨c, c', h, h', hr⟩ := C07_subst s n p x hn hs hp hx hne
+  exact ⟨c, c', by rw [tie_set_vt s n fuel hn hf, h]; rfl, by rw [tie_set_vt _ n fuel hn hf, h']; rfl, hr⟩
+
+/-- any single insertion of C, G or T changes the first symbol of the check. -/
+theorem gen_C07_insert (s : List Char) (n p : Nat) (x : Char) (fuel : Nat) (hn : 1 ≤ n) (hs : IsAcgt s)
+    (hp : p ≤ s.length) (hx : x = 'C' ∨ x = 'G' ∨ x = 'T') (hf : 2 * n + 2 ≤ fuel) :
+    ∃ c c', Gen.set_vt fuel (cstr s) (.int (n : Int)) = .ok (cstr c) ∧
+      Gen.set_vt fuel (cstr (s.take p ++ [x] ++ s.drop p)) (.int (n : Int)) = .ok (cstr c') ∧
+      c.head? ≠ c'.head? := by
+  obtain ⟨c, c', h, h', hr⟩ := C07_insert s n p x hn hs hp hx
+  exact ⟨c, c', by rw [tie_set_vt s n fuel hn hf, h]; rfl, by rw [tie_set_vt _ n fuel hn hf, h']; rfl, hr⟩
+
+/-- any single deletion of C, G or T changes the first symbol of the check. -/
+theorem gen_C07_delete (s : List Char) (n p : Nat) (fuel : Nat) (hn : 1 ≤ n) (hs : IsAcgt s)
+    (hp : p < s.length) (hx : s[p]? = some 'C' ∨ s[p]? = some 'G' ∨ s[p]? = some 'T')
+    (hf : 2 * n + 2 ≤ fuel) :
+    ∃ c c', Gen.set_vt fuel (cstr s) (.int (n : Int)) = .ok (cstr c) ∧
+      Gen.set_vt fuel (cstr (s.eraseIdx p)) (.int (n : Int)) = .ok (cstr c') ∧ c.head? ≠ c'.head? := by
+  obtain ⟨c, c', h, h', hr⟩ := C07_delete s n p hn hs hp hx
+  exact ⟨c, c', by rw [tie_set_vt s n fuel hn hf, h]; rfl, by rw [tie_set_vt _ n fuel hn hf, h']; rfl, hr⟩
+
+/-- consequently the generated `decode` of any strand whose check (as the generated `set_vt` computes
+it) differs in the first symbol from the supplied one raises `ValueError`, whatever the graph,
+table, mode and requested length — `C07_decode_rejects` about the generated code. -/
+theorem gen_C07_decode_rejects (a : Acc) (tbl : Option Tbl) (v : Nat) (s s' : List Char) (L n : Nat)
+    (fast : Bool) (c c' : List Char) (fv fuel : Nat) (vb : Bool)
+    (ha : a.WF) (hv : v < a.size) (ht : TblOK tbl a) (hn : 1 ≤ n) (hfv : 2 * n + 2 ≤ fv)
+    (hc : Gen.set_vt fv (cstr s) (.int (n : Int)) = .ok (cstr c))
+    (hc' : Gen.set_vt fv (cstr s') (.int (n : Int)) = .ok (cstr c')) (hne : c.head? ≠ c'.head?)
+    (hf : 4 * s'.length + 2 * n + 10 ≤ fuel) :
+    Gen.decode fuel (cstr s') (.int (L : Int)) (accPV a) (.int (v : Int)) (.bool fast) (.str c) (tblPV tbl)
+      (.bool vb) = .error .valueError := by
+  have hm := setVt_of_gen hn hfv hc
+  have hm' := setVt_of_gen hn hfv hc'
+  have hl := setVt_length hn hm
+  have hcne : c ≠ [] := by
+    intro h
+    rw [h] at hl
+    simp at hl
+    omega
+  exact (tie_decode a tbl v s' L fast (some c) fuel vb ha hv ht
+    (fun c0 h0 => by cases h0; exact hcne)
+    (by simp only [Option.map_some, Option.getD_some, hl]; exact hf)).trans
+    (by rw [C07_decode_rejects a tbl v s s' L n fast c c' hm hm' hn hne]; rfl)
+
+/-- C01 and C07 together, entirely about the generated code: if the generated `encode` returns the
+strand `s` with the check `c` (`vt_length = n > 0`), then the generated `decode` rejects every
+single-nucleotide substitution of `s` presented with `c` — in either mode, whatever `bit_length`. -/
+theorem gen_C07_encode_subst_rejected (a : Acc) (tbl : Option Tbl) (v : Nat) (m : List Nat)
+    (fast fast' : Bool) (n fuel fuel' L p : Nat) (x : Char) (vb vb' : Bool) (s c : List Char)
+    (ha : a.WF) (hv : v < a.size) (ht : TblOK tbl a) (hm : IsBits m) (hn : 0 < n) (hf : 2 * n + 3 ≤ fuel)
+    (h : Gen.encode fuel (bitsPV m) (accPV a) (.int (v : Int)) (.bool fast) (.int (n : Int)) (tblPV tbl)
+      (.bool false) (.bool vb) = .ok (.tup [.str s, .str c]))
+    (hp : p < s.length) (hx : (nucIdx x).isSome = true) (hne : s[p]? ≠ some x)
+    (hf' : 4 * s.length + 2 * n + 10 ≤ fuel') :
+    Gen.decode fuel' (cstr (s.set p x)) (.int (L : Int)) (accPV a) (.int (v : Int)) (.bool fast') (.str c)
+      (tblPV tbl) (.bool vb') = .error .valueError := by
+  rw [tie_encode a tbl v m fast n fuel vb ha hv ht (isBits_le_one hm) hf] at h
+  obtain ⟨⟨s0, c0⟩, he, hr⟩ := map_ok_inv h
+  rcases encode_ok_check he with ⟨h0, _⟩ | ⟨_, c1, rfl, hsv⟩
+  · omega
+  · simp only [encResultPV, PV.tup.injEq, List.cons.injEq, PV.str.injEq, and_true] at hr
+    obtain ⟨rfl, rfl⟩ := hr
+    have hs := isAcgt_of_setVt hsv
+    obtain ⟨d, d', hd, hd', hdd⟩ := C07_subst s n p x hn hs hp hx hne
+    rw [hsv] at hd
+    cases hd
+    have hl := setVt_length hn hsv
+    have hcne : c ≠ [] := by
+      intro h
+      rw [h] at hl
+      simp at hl
+      omega
+    exact (tie_decode a tbl v (s.set p x) L fast' (some c) fuel' vb' ha hv ht
+      (fun c0 h0 => by cases h0; exact hcne)
+      (by simp only [Option.map_some, Option.getD_some, hl, List.length_set]; exact hf')).trans
+      (by rw [C07_decode_rejects a tbl v s (s.set p x) L n fast' c d' hsv hd' hn hdd]; rfl)
 
 end Dsw.Tie
